@@ -781,6 +781,11 @@ func fieldMinLenInvariant(info *types.Info, x ast.Expr, need int, all []*boundsF
 	if field == nil || field.Pkg() == nil || !load.IsModPath(field.Pkg().Path()) {
 		return "", false
 	}
+	if strings.HasSuffix(field.Pkg().Path(), "/errorspb") || strings.HasSuffix(field.Pkg().Path(), "/extgrpc") && strings.HasPrefix(field.Name(), "XXX") {
+		// fields of protobuf messages are filled by the generated Unmarshal from
+		// wire bytes: no construction-site invariant can hold for them
+		return "", false
+	}
 	writes := 0
 	for _, bf := range all {
 		var an *bodyAnalysis
